@@ -388,12 +388,16 @@ func genStoreRT(r *vh.Rng, n, maxOps int, canonical bool) []Case {
 func generate(r *vh.Rng, thorough bool) []stream {
 	exDepth, nr, maxOps := 3, 90, 14
 	if thorough {
-		exDepth, nr, maxOps = 4, 1800, 30
+		exDepth, nr, maxOps = 4, 900, 28
 	}
 	ex := map[string]interface{}{"exhaustive": true,
-		"space": fmt.Sprintf("all allocate/release sequences of length %d over 3 subscribers x (no failure | store failure at each position (thorough) / at one rotating position (quick)) x restart after every op under all 6 enumeration orders (session) / one rotating order (lease)", exDepth)}
+		"space": fmt.Sprintf("all allocate/release sequences of length %d over 3 subscribers x (no failure | store failure at one rotating position); thorough adds length 3 with a failure at every position x restart after every op under all 6 enumeration orders (session) / one rotating order (lease)", exDepth)}
 	var out []stream
-	out = append(out, stream{"dist_session_exh", "dist", genExhaustive(false, sessionGeos[0], 3, exDepth, "exhaustive", thorough), ex})
+	exh := genExhaustive(false, sessionGeos[0], 3, exDepth, "exhaustive", false)
+	if thorough { // depth 4 with one rotating failure position + depth 3 with a failure at every position
+		exh = append(exh, genExhaustive(false, sessionGeos[0], 3, 3, "exhaustive", true)...)
+	}
+	out = append(out, stream{"dist_session_exh", "dist", exh, ex})
 	out = append(out, stream{"dist_session_guarded", "dist", genRandomDist(r.Fork(), false, nr, maxOps, true, "guarded"), nil})
 	out = append(out, stream{"dist_lease_guarded", "dist", append(genRandomDist(r.Fork(), true, nr/2, maxOps, true, "guarded"), genLeaseOrdered(r.Fork(), nr/2)...), nil})
 	out = append(out, stream{"dist_session_defect", "dist", genRandomDist(r.Fork(), false, nr/2, maxOps, false, "defect"), nil})
